@@ -79,6 +79,10 @@ func (f *WithOpenFile) Call(s *slip.Scope, args slip.List, depth int) (result sl
 	args = args[1:]
 	for i := range args {
 		result = slip.EvalArg(s2, args, i, d2)
+		if _, exit := result.(slip.NonLocalExit); exit {
+			// return-from, return or go: control is leaving the body.
+			return
+		}
 	}
 	return
 }
